@@ -859,6 +859,78 @@ func (env *rEnv) call(n *rNode) Value {
 			}
 			return env.fail("no cursor %d on this path", idx)
 		}
+	case "cursorOrderText", "cursorJoinText", "cursorHasConjunct", "cursorLimitIs", "cursorSelText":
+		// pieces of the i-th SELECT cursor of this path in canonical text (see sqlExprText)
+		if idx, ok := constIndex(env.eval(n.Args[0])); ok {
+			k := 0
+			for _, ev := range env.post.trace {
+				info, _ := ev.Extra.(*StmtInfo)
+				if ev.Kind == "sql" && info != nil && info.Kind == "select" && info.Cursor != nil {
+					if k == idx {
+						stmt := info.Stmt
+						switch n.Text {
+						case "cursorOrderText":
+							var ps []string
+							for i, ob := range stmt.OrderBy {
+								t := sqlExprText(ob)
+								if stmt.OrderDesc[i] {
+									t += " desc"
+								}
+								ps = append(ps, t)
+							}
+							return sym(e.strLit(strings.Join(ps, ",")))
+						case "cursorJoinText":
+							var ps []string
+							for i, j := range stmt.Join {
+								t := strings.ToLower(stmt.Table) + " join " + strings.ToLower(j)
+								if i < len(stmt.JoinOn) {
+									a := sqlExprText(stmt.JoinOn[i])
+									// an equality is symmetric: canonical order of its sides
+									if x := stmt.JoinOn[i]; (x.Op == "=" || x.Op == "==") && len(x.Args) == 2 {
+										l, r := sqlExprText(x.Args[0]), sqlExprText(x.Args[1])
+										if r < l {
+											l, r = r, l
+										}
+										a = l + "=" + r
+									}
+									t += " on " + a
+								}
+								ps = append(ps, t)
+							}
+							return sym(e.strLit(strings.Join(ps, ";")))
+						case "cursorHasConjunct":
+							if n.Args[1].Op == "str" {
+								for _, c := range conjuncts(stmt.Where) {
+									if sqlExprText(c) == n.Args[1].Text {
+										return sym(TTrue)
+									}
+								}
+								return sym(TFalse)
+							}
+						case "cursorSelText":
+							var ps []string
+							for _, it := range stmt.Sel {
+								ps = append(ps, sqlExprText(it.Expr))
+							}
+							return sym(e.strLit(strings.Join(ps, ",")))
+						case "cursorLimitIs":
+							// cursorLimitIs(i, n): the statement has LIMIT n
+							if stmt.Limit == nil {
+								return sym(TFalse)
+							}
+							c := &evalCtx{e: e, st: env.post, params: info.Cursor.Params}
+							v := c.evalNoRow(stmt.Limit)
+							if v.Any {
+								return env.fail("LIMIT not evaluable")
+							}
+							return sym(Eq(v.T, argT(1)))
+						}
+					}
+					k++
+				}
+			}
+			return env.fail("no cursor %d on this path", idx)
+		}
 	case "cursorOrderBy":
 		// cursorOrderBy(i, "cas"): the i-th cursor is ordered by exactly that column, ascending
 		if idx, ok := constIndex(env.eval(n.Args[0])); ok && n.Args[1].Op == "str" {
